@@ -149,6 +149,9 @@ type Ctx struct {
 	Extra        map[string]any
 	replayPaths  []string
 	broken       []string
+	NoShrink     bool
+	shrunk       int
+	shrinkRuns   int
 }
 
 func NewCtx(prop, tier string, seed int64) *Ctx {
@@ -258,6 +261,7 @@ type Witness struct {
 	Failures []Failure       `json:"failures"`
 	Custom   json.RawMessage `json:"custom,omitempty"`
 	GoitRev  string          `json:"goit_rev,omitempty"`
+	Note     string          `json:"note,omitempty"`
 }
 
 func (c *Ctx) WriteWitness(w *Witness) string {
@@ -265,6 +269,10 @@ func (c *Ctx) WriteWitness(w *Witness) string {
 	if !ok {
 		return ""
 	}
+	return c.writeWitnessSlot(w, n)
+}
+
+func (c *Ctx) writeWitnessSlot(w *Witness, n int) string {
 	w.Prop, w.Tier, w.Seed = c.Prop, c.Tier, c.Seed
 	// witnesses carry clipped copies of the output streams
 	cp := make([]*Step, len(w.Steps))
@@ -478,7 +486,18 @@ func (w *World) Finish() {
 		if last+1 < len(steps) {
 			steps = steps[:last+1]
 		}
-		w.C.WriteWitness(&Witness{Kind: "history", Hist: w.Hist, Steps: steps, Failures: w.failed})
+		full := len(steps)
+		// reserve the witness slot first: shrinking takes a while and the slots are bounded
+		if slot, ok := w.C.WantWitness(); ok {
+			if w.C.shrinkBudget() {
+				steps = w.shrink(steps)
+			}
+			wit := &Witness{Kind: "history", Hist: w.Hist, Steps: steps, Failures: w.failed}
+			if len(steps) < full {
+				wit.Note = fmt.Sprintf("shrunk by delta debugging from %d to %d steps (same oracle|symptom still fails); failure details refer to the original history", full, len(steps))
+			}
+			w.C.writeWitnessSlot(wit, slot)
+		}
 	}
 	if w.Hist < 3 {
 		w.C.Sample(w.Render(14))
@@ -495,6 +514,82 @@ func (w *World) Render(max int) []string {
 		out = append(out, s.String())
 	}
 	return out
+}
+
+// ---------------------------------------------------------------------------------------
+// Witness shrinking (delta debugging over the recorded steps)
+
+func (c *Ctx) shrinkBudget() bool {
+	c.mu.Lock()
+	defer c.mu.Unlock()
+	if c.NoShrink || c.shrunk >= 3 {
+		return false
+	}
+	c.shrunk++
+	return true
+}
+
+// reproduces re-executes steps in a fresh sandbox with the same monitors and reports whether a
+// failure with one of the wanted oracle|symptom pairs occurs.
+func (w *World) reproduces(steps []*Step, want map[string]bool) bool {
+	sub := NewCtx(w.C.Prop, w.C.Tier, w.C.Seed)
+	sub.Goit, sub.GoitVFS, sub.Scratch, sub.VerifDir = w.C.Goit, w.C.GoitVFS, w.C.Scratch, w.C.VerifDir
+	sub.NoShrink = true
+	w.C.mu.Lock()
+	w.C.shrinkRuns++
+	n := w.C.shrinkRuns
+	w.C.mu.Unlock()
+	sw, err := sub.NewWorld(9_000_000+n, w.Mons)
+	if err != nil {
+		return false
+	}
+	defer sw.Close()
+	sw.GoitBin = w.GoitBin
+	for _, s := range steps {
+		sw.ReplayStep(s)
+	}
+	for _, f := range sw.failed {
+		if want[f.Oracle+"|"+f.Symptom] {
+			return true
+		}
+	}
+	return false
+}
+
+func (w *World) shrink(steps []*Step) []*Step {
+	want := map[string]bool{}
+	for _, f := range w.failed {
+		want[f.Oracle+"|"+f.Symptom] = true
+	}
+	if len(steps) < 6 {
+		return steps
+	}
+	if !w.reproduces(steps, want) {
+		fmt.Fprintf(os.Stderr, "shrink: history %d does not reproduce step by step (%v)\n", w.Hist, want)
+		return steps // not reproducible step by step (e.g. time dependent): keep the full history
+	}
+	runs := 0
+	cur := steps
+	for chunk := len(cur) / 2; chunk >= 1 && runs < 60; {
+		removed := false
+		for start := 0; start+chunk <= len(cur) && runs < 60; {
+			cand := append(append([]*Step{}, cur[:start]...), cur[start+chunk:]...)
+			runs++
+			if len(cand) > 0 && w.reproduces(cand, want) {
+				cur = cand
+				removed = true
+			} else {
+				start += chunk
+			}
+		}
+		if !removed || chunk > len(cur)/2 {
+			chunk /= 2
+		}
+	}
+	if os.Getenv("VERIF_DEBUG_SHRINK") != "" {
+		fmt.Fprintf(os.Stderr, "shrink: history %d: %d -> %d steps in %d runs\n", w.Hist, len(steps), len(cur), runs)
+	}
+	return cur
 }
 
 // ---------------------------------------------------------------------------------------
@@ -678,6 +773,7 @@ func (c *Ctx) Finish(evidencePath string, floors []Floor) int {
 		}
 		rp := "(none written)"
 		if len(c.replayPaths) > 0 {
+			sort.Strings(c.replayPaths) // slot 1 belongs to the first failing history (shrunk)
 			rp = c.replayPaths[0]
 		}
 		fmt.Printf("VIOLATION property=%s replay=%s\n", c.Prop, rp)
